@@ -2,6 +2,6 @@
 EXTENDS ProcessProps
 MCProgs == <<[name |-> "P12", steps |-> <<[kind |-> "sync", n |-> 0, status |-> "-", emits |-> <<<<"o1", "v1">>>>, cmd |-> "continue", next |-> 2, args |-> <<>>, kw |-> <<>>, val |-> "-", aws |-> <<>>, via |-> "return", makes |-> <<>>], [kind |-> "sync", n |-> 0, status |-> "-", emits |-> <<<<"o2", "v2">>>>, cmd |-> "stop", next |-> 0, args |-> <<>>, kw |-> <<>>, val |-> "v7", aws |-> <<>>, via |-> "return", makes |-> <<>>]>>, outMissing |-> TRUE, awt |-> <<>>], [name |-> "P02", steps |-> <<[kind |-> "sync", n |-> 0, status |-> "-", emits |-> <<>>, cmd |-> "continue", next |-> 2, args |-> <<>>, kw |-> <<>>, val |-> "-", aws |-> <<>>, via |-> "return", makes |-> <<>>], [kind |-> "sync", n |-> 0, status |-> "-", emits |-> <<>>, cmd |-> "stop", next |-> 0, args |-> <<>>, kw |-> <<>>, val |-> "v7", aws |-> <<>>, via |-> "return", makes |-> <<>>]>>, outMissing |-> TRUE, awt |-> <<>>]>>
 MCPlans == <<<<>>>>
-MCFixes == {"F1", "F11", "F12", "F2", "F4", "F5", "F6", "F7", "F8", "F9"}
+MCFixes == {"F1", "F10", "F11", "F12", "F13", "F13b", "F15", "F16", "F17", "F2", "F4", "F5", "F6", "F7", "F8", "F9"}
 MCAlphabet == {"bcast", "rpc"}
 ====
